@@ -76,6 +76,7 @@ def build_family(tier):
     fam += [('int', t) for t in X.arith_trees([ileaves[0], sym.IntLiteral(2), ileaves[1]], 3 if tier == 'thorough' else 2,
                                               binops=['add', 'sub', 'mul', 'div'], unops=['neg'])]
     fam += [('int', t) for t in literal_trees()]
+    fam += [('int', t) for t in X.nary_sign_trees(ileaves)]
     rleaves = [X.V('x', X.REAL_T), X.V('y', X.REAL_T), X.V('z', X.REAL_T), sym.FloatLiteral('2.0'), sym.IntLiteral(2)]
     fam += [('real', t) for t in X.arith_trees(rleaves, 2, binops=['add', 'sub', 'mul', 'div', 'padd'], unops=['neg'])]
     fam += [('real', t) for t in X.arith_trees([rleaves[0], sym.FloatLiteral('1.5'), sym.FloatLiteral('0.5')], 2,
